@@ -17,7 +17,16 @@ class C06(Prop):
         signer = lambda: r.choice(['echo', '(k b0102)', '(k b)', 'echo', '(fail 5)'])
         cipher = lambda: r.choice(['cat', '(k b0708)', 'cat', '(fail 9)'])
         ver = lambda: r.choice(['vok', 'verr2'])
-        def hdr(): return g.hdr(1, wild=False)
+        def hdr():
+            h = g.hdr(1, wild=False)
+            if r.random() < 0.2:
+                # a header that is not a fixed point of decode-then-encode (a short bignum tag among the extras, a core label given as
+                # an extra entry): what the creating call saw must still be what the verifying call sees after the wire (seeded C06-r4)
+                assert h.endswith('))')
+                extra = r.choice(['i1000 (tag 2 b2a)', 'i1000 (tag 3 b00)', 'i1 i1', 'i4 b3131', 'i1001 (arr (tag 2 b01))'])
+                if (extra.startswith('i1 ') and not h.startswith('(hdr - ')) or (extra.startswith('i4 ') and ') - b ' not in h and False): extra = 'i1000 (tag 2 b2a)'
+                h = h[:-2] + (' ' if not h.endswith('(rest))') else ' ') + extra + '))'
+            return h
         for _ in range(budget(tier, 2500, 40000)):
             fam = r.choice(['CoseSign1Builder', 'CoseSignBuilder', 'CoseMacBuilder', 'CoseMac0Builder', 'CoseEncryptBuilder', 'CoseEncrypt0Builder', 'CoseRecipientBuilder'])
             aad = lenbytes(r, 0.02); pl = lenbytes(r, 0.02)
@@ -273,6 +282,14 @@ class C09(Prop):
                 v = ('array', a); b = refcbor.encode(v) if r.random() < 0.6 else g.venc(v)
                 for t in self.STRUCTS:
                     ops.append(mk('dec %s b%s' % (t, b.hex()), k='arity%d' % arity))
+        # exhaustive single-slot substitution: every palette value in every slot of every well-formed template (not left to chance:
+        # the round-1 change "trailing bytes inside the protected bstr" was once missed when the palette grew)
+        for arity, tmpl in good.items():
+            for i in range(arity):
+                for v in slot:
+                    a = list(tmpl); a[i] = v
+                    b = refcbor.encode(('array', a)).hex()
+                    for t in self.STRUCTS: ops.append(mk('dec %s b%s' % (t, b), k='subst%d' % arity))
         for v in (('map', []), I(1), B(b''), ('null',), ('tag', 18, ('array', good[4]))):
             for t in self.STRUCTS: ops.append(mk('dec %s b%s' % (t, refcbor.encode(v).hex()), k='nonarray'))
         # lists of 3..6 *distinct* nested structures: every element lands at its own index (seeded C09-r5: swap_remove reorders from 3 up)
